@@ -30,5 +30,8 @@ let () =
   reg "tok.int64" (fun [base; sign; lim; inp] ->
       match tok_int64 (z_of_string base) (sign = "1") (n_of_string lim) (bytes_of_hex inp) with
       | None -> "fail"
-      | Some (v, k) -> "ok " ^ string_of_z v ^ " " ^ string_of_n k)
-
+      | Some (v, k) -> "ok " ^ string_of_z v ^ " " ^ string_of_n k);
+  reg "hdr.offset" (fun [inp] -> match parse_offset (bytes_of_hex inp) with
+      | None -> "fail" | Some (v, k) -> "ok " ^ string_of_z v ^ " " ^ string_of_n k);
+  reg "hdr.int" (fun [inp] -> match parse_int (bytes_of_hex inp) with
+      | None -> "fail" | Some v -> "ok " ^ string_of_z v)
